@@ -646,6 +646,124 @@ def r15_bytes_match(body: Text, strs=False):
         n += 1
 
 
+def _split_arms(t, code, bo, be):
+    """arms of the match whose braces are t[bo] .. t[be-1]: [(start, end, head, body_text)]"""
+    arms = []
+    i = bo + 1
+    while True:
+        while i < be - 1 and (t[i].isspace() or not code[i]):
+            i += 1
+        if i >= be - 1:
+            break
+        j = i
+        depth = 0
+        while not (code[j] and depth == 0 and t.startswith('=>', j)):
+            if code[j]:
+                if t[j] in '([{':
+                    depth += 1
+                elif t[j] in ')]}':
+                    depth -= 1
+            j += 1
+        head = t[i:j].strip()
+        k = j + 2
+        while t[k].isspace():
+            k += 1
+        if t[k] == '{':
+            e = match_brace(t, code, k)
+            arm_body = t[k:e]
+            k = e
+            while k < be - 1 and t[k].isspace():
+                k += 1
+            if t[k] == ',':
+                k += 1
+        else:
+            e = k
+            depth = 0
+            while e < be - 1 and not (code[e] and depth == 0 and t[e] == ','):
+                if code[e]:
+                    if t[e] in '([{':
+                        depth += 1
+                    elif t[e] in ')]}':
+                        depth -= 1
+                e += 1
+            arm_body = '{ ' + t[k:e].strip() + ' }'
+            k = min(e + 1, be - 1)
+        arms.append((i, k, head, arm_body))
+        i = k
+    return arms
+
+
+def r19_merge_guard_arms(body: Text):
+    """R19: consecutive arms `P(x) if G1 => A1, P(x) if G2 => A2, P(_) => C` (same pattern, the last one unguarded with the
+    binding replaced by `_`) become the single arm `P(x) => { if G1 A1 else if G2 A2 else C }`.  Same first-match semantics;
+    needed because this Verus build loses mutable-reference resolution on arms that have guards."""
+    n = 0
+    while True:
+        t = body.t
+        code = code_mask(t)
+        done = True
+        for m in re.finditer(r'\bmatch\b', t):
+            if not code[m.start()]:
+                continue
+            i = m.end()
+            depth = 0
+            while i < len(t):
+                if code[i]:
+                    if t[i] in '([':
+                        depth += 1
+                    elif t[i] in ')]':
+                        depth -= 1
+                    elif t[i] == '{' and depth == 0:
+                        break
+                i += 1
+            be = match_brace(t, code, i)
+            arms = _split_arms(t, code, i, be)
+            for a in range(len(arms)):
+                mg = re.match(r'^(.*?\S)\s+if\s+(.*)$', arms[a][2], re.S)
+                if not mg:
+                    continue
+                pat = mg.group(1)
+                ids = [x for x in re.findall(r'\b[a-z_][a-z0-9_]*\b', pat)]
+                if len(ids) != 1:
+                    continue
+                group = [(mg.group(2), arms[a][3])]
+                b = a + 1
+                while b < len(arms):
+                    mg2 = re.match(r'^(.*?\S)\s+if\s+(.*)$', arms[b][2], re.S)
+                    if mg2 and norm_ws(mg2.group(1)) == norm_ws(pat):
+                        group.append((mg2.group(2), arms[b][3]))
+                        b += 1
+                    else:
+                        break
+                if b < len(arms) and norm_ws(arms[b][2]) == norm_ws(re.sub(r'\b%s\b' % ids[0], '_', pat)):
+                    chain = ' else '.join('if %s %s' % (g.strip(), ab) for g, ab in group) + ' else ' + arms[b][3]
+                    body.edit('R19', arms[a][0], arms[b][1], '%s => { %s }\n' % (pat, chain), 'guard arms merged')
+                    n += 1
+                    done = False
+                    break
+            if not done:
+                break
+        if done:
+            return n
+
+
+def r20_let_intro(body: Text, needle, tmp):
+    """R20: A-normal form for one sub-expression: the (single-line) expression statement containing `needle` becomes
+    `{ let tmp = needle; <statement with tmp> }` so that a proof hint can refer to the intermediate value.  Evaluation order
+    is unchanged when `needle` is the first effectful sub-expression of that statement (checked by the unit author)."""
+    p = body.find_code(needle)
+    if p < 0:
+        body.lost.append('R20 anchor %r' % needle)
+        return False
+    ls = body.t.rfind('\n', 0, p) + 1
+    le = body.t.find('\n', p)
+    line = body.t[ls:le]
+    indent = re.match(r'\s*', line).group(0)
+    new = indent + '{ let ' + tmp + ' = ' + needle + ';\n' + indent + line.strip().replace(needle, tmp, 1) + ' }'
+    body.edit('R20', ls, le, new, 'let-introduction')
+    return True
+
+
 def r5_mut_self(sig: Text, body: Text):
     m = re.search(r'\(\s*mut\s+self\s*[,)]', sig.t)
     if not m:
